@@ -39,7 +39,7 @@ REQUIRED_CELLS = {
               'single:ph=1', 'single:ph=0', 'single:form=dict', 'single:form=str', 'single:form=list',
               'single:basis=mol', 'single:basis=wt_copy', 'single:basis=wt_coeff', 'single:basis=wt_setter',
               'single:basis=mol_from_wt', 'single:derive=copy_other', 'single:derive=copy_then_setter',
-              'single:derive=setter_roundtrip', 'sets:derive=copy_other', 'sets:derive=members_copy_other', 'sets:slice-not-prefix', 'entry:failed-call', 'entry:force-ok', 'sets:kind=par', 'sets:kind=ser', 'sets:kind=sys', 'sets:xpkg',
+              'single:derive=setter_roundtrip', 'sets:derive=copy_other', 'sets:derive=members_copy_other', 'sets:slice-not-prefix', 'sets:rebase=member_setter(rejected)', 'sets:rebase=source_setter', 'entry:failed-call', 'entry:force-ok', 'sets:kind=par', 'sets:kind=ser', 'sets:kind=sys', 'sets:xpkg',
               'sets:ph=1', 'sets:basis=wt', 'outcome:InfeasibleRegion', 'outcome:returned',
               'parser:ph=0', 'parser:ph=1'],
     'thorough': [],
@@ -113,6 +113,7 @@ def prop_single(ch, ctx):
         pass_phases = ch.bool('pass_phases')
         phases = tuple(full) if pass_phases else tuple(sorted(set(pm.values())))
     spec = rx.RSpec(nu, reactant, X, pm)
+    spec.x_as_int = X == int(X) and ch.bool('r.X.as_int')      # whole-number conversions also as Python ints
     form = ch.choice('form', ['dict', 'str', 'list'] if tagged else ['dict', 'str'])
     if form == 'list':
         pass_phases = True
@@ -242,6 +243,7 @@ def prop_sets(ch, ctx):
         reactant = ch.choice(f'r{i}.reactant', list(nu))
         X = rx.draw_X(ch, f'r{i}')
         spec = rx.RSpec(nu, reactant, X, {k: pm_all[k] for k in nu} if tagged else None)
+        spec.x_as_int = X == int(X) and ch.bool(f'r{i}.X.as_int')
         form = ch.choice(f'r{i}.form', ['dict', 'str', 'list'] if tagged else ['dict', 'str'])
         if set_basis == 'mol' or set_copy_wt:
             mode = ch.choice(f'r{i}.mode', ['mol', 'mol', 'mol_from_wt'])
@@ -305,6 +307,7 @@ def prop_sets(ch, ctx):
                 ctx.fail(f'slice|{region_b}|type', f'{type(obj).__name__} with {len(obj.X)} reactions for {len(sel)} selected')
             specs = [specs[k] for k in sel]
             refs = [refs[k] for k in sel]
+            rxns = [rxns[k] for k in sel]
             ref = rx.RefRxn(kind, refs)
             struct = [kind, n, [sl.start, sl.stop, sl.step]]
             n = len(sel)
@@ -334,9 +337,70 @@ def prop_sets(ch, ctx):
     # Multi-step (see prop_single): derive a counterpart of the whole set / of every member, then apply the
     # counterpart and the original to copies of the same feed in either order.
     other = 'wt' if set_basis == 'mol' else 'mol'
+    # Multi-step: re-base a MEMBER after the set / system was constructed (both directions), then apply.  Whenever a
+    # later call returns normally it must still conserve mass and atoms: either the re-basing / the call is rejected
+    # for the documented reason, or the result equals the reference of the reactions the object was built from.
+    rebase = ch.choice('rebase', ['none', 'none', 'none', 'member_setter', 'member_setter', 'source_setter',
+                                  'source_roundtrip', 'item_setter'])
+    rtag = ''
+    if rebase != 'none':
+        k = ch.int('rebase.k', 0, n - 1)
+        rrg = f'rebase={rebase},kind={kk},basis={set_basis},ph={int(tagged)}'
+        def set_basis_of(r, b):
+            r.basis = b
+        plain_member = None
+        if kind == 'sys':
+            # position of reaction k in the system: a plain Reaction member or a source of a set member
+            pos, m_idx = 0, None
+            for gi, (gk, size) in enumerate(groups):
+                if pos <= k < pos + size:
+                    m_idx = gi; break
+                pos += size
+            if groups[m_idx][0] == 'rxn':
+                plain_member = members[m_idx]
+        if plain_member is not None and rebase in ('source_setter', 'item_setter'):
+            rebase = 'member_setter'          # the source reaction IS the member of the system
+        if rebase == 'item_setter':
+            if kind == 'sys':
+                rebase = 'member_setter'
+            else:
+                try:
+                    ctx.call('rebase.item', set_basis_of, obj[k], other, allowed=(TypeError,), region=rrg)
+                except TypeError:
+                    ctx.cell('sets:rebase=item_setter(rejected)')
+                else:
+                    ctx.fail(f'rebase.item|{rrg}|accepted', 'the basis of an item was changed (documented TypeError)')
+        rrg = f'rebase={rebase if not (rebase == "member_setter" and plain_member is None) else "source_setter"},kind={kk},basis={set_basis},ph={int(tagged)}'
+        if rebase == 'member_setter':
+            if plain_member is None:
+                rebase = 'source_setter'          # sets do not expose re-basable members: re-base the source reaction
+            else:
+                # a ReactionSystem refers to its members: with one member on another basis the call must be rejected
+                ctx.call('rebase.member', set_basis_of, plain_member, other, region=rrg)
+                feed0 = np.ones((len(phases), len(pnames))) if tagged else np.ones(len(pnames))
+                try:
+                    ctx.call('react.rebased-member', obj, feed0, allowed=(RuntimeError, InfeasibleRegion), region=rrg)
+                except RuntimeError:
+                    ctx.cell('sets:rebase=member_setter(rejected)')
+                except InfeasibleRegion:
+                    ctx.fail(f'react.rebased-member|{rrg}|accepted-mixed-basis',
+                             'a system with a member on another basis was evaluated (InfeasibleRegion) instead of being rejected')
+                else:
+                    ctx.fail(f'react.rebased-member|{rrg}|accepted-mixed-basis',
+                             f'a system with a member on another basis returned normally: {feed0.tolist()}')
+                ctx.call('rebase.member', set_basis_of, plain_member, set_basis, region=rrg)   # and back: must work again
+        if rebase in ('source_setter', 'source_roundtrip'):
+            # the reaction object the set was built FROM is re-based afterwards; the set (a snapshot of stoichiometry
+            # and conversions by its own documentation: "contains all reactions and conversions as an array") must still
+            # act like the reactions it was built from
+            ctx.call('rebase.source', set_basis_of, rxns[k], other, region=rrg)
+            if rebase == 'source_roundtrip':
+                ctx.call('rebase.source', set_basis_of, rxns[k], set_basis, region=rrg)
+            ctx.cell(f'sets:rebase={rebase}')
+        rtag = f',rebase={rebase}'
     derive = ch.choice('derive', ['none', 'copy_other', 'copy_other', 'copy_same', 'members_copy_other',
                                   'members_copy_other', 'members_roundtrip'])
-    suffix = '' if derive == 'none' else f',after={derive}'
+    suffix = ('' if derive == 'none' else f',after={derive}') + rtag
     region = f'kind={kk},basis={set_basis},ph={int(tagged)},tgt={tgt},xpkg={int(xpkg)}' + suffix
 
     def ref_tree(b):
